@@ -256,6 +256,44 @@ pub fn run(rep: &mut Report, rng: &mut Rng, thorough: bool) {
             rep.case(format!("lzma2dec:{}", dict_class(dict)), true, || detail());
         }
     }
+    // LZMA2 reader on incompressible input (stored chunks) and mixed input, read with LARGE caller buffers (the
+    // caller's buffer is allocated outside the measurement): whatever scratch space a read call uses counts
+    for &dict in &dicts {
+        if dict > (1 << 24) {
+            continue;
+        }
+        let est2 = lzma2_get_memory_usage(dict) as u64;
+        for kind in ["random", "mixed"] {
+            let data = gen_data(rng, kind, 150_000);
+            let o = LzOpts { dict: dict.min(1 << 20), lc: 3, lp: 0, pb: 2, normal: false, nice: 32, bt4: false, depth: 0, preset: None };
+            let Outcome::Ok(comp) = lzma2_compress(&data, &o, None, &[data.len()], 0) else { continue };
+            for bufsize in [65536usize, 1 << 20] {
+                let mut buf = vec![0u8; bufsize];
+                let (res, peak) = measure(|| {
+                    guard(|| {
+                        let mut r = LZMA2Reader::new(comp.as_slice(), dict, None);
+                        let mut n = 0usize;
+                        loop {
+                            let k = r.read(&mut buf)?;
+                            if k == 0 {
+                                break;
+                            }
+                            n += k;
+                        }
+                        Ok(n)
+                    })
+                });
+                let detail = || json!({"what": "lzma2 decoder, large reads", "dict": dict, "data_kind": kind, "read_buffer": bufsize, "estimate_kib": est2, "peak_bytes": peak});
+                rep.count("kind.lzma2-decoder-large-reads");
+                if !matches!(res, Outcome::Ok(n) if n == data.len()) {
+                    rep.fail("mem-decoder-run", &res.describe(), detail());
+                } else if (peak as u64) > est2 * 1024 {
+                    rep.fail("mem-estimate-unsound:lzma2-decoder", &format!("LZMA2 decoder peak {} KiB exceeds the estimate {} KiB ({kind} input, {bufsize}-byte reads)", peak / 1024, est2), detail());
+                }
+                rep.case(format!("lzma2dec-large:{}:{kind}:{bufsize}", dict_class(dict)), true, || detail());
+            }
+        }
+    }
     // LZMA reader with a preset dictionary and a declared size: the window is sized by min(dict, size + preset)
     for &dict in &dicts {
         if dict > (1 << 23) {
